@@ -194,7 +194,6 @@ func VerifC14_Reset(h *zz.H) {
 	for _, al := range a.leaves {
 		h.Assert(len(al.p) == 2 && al.p[0] == "meta", "C14: after Reset only metadata leaves remain")
 	}
-	h.Assert(t.sync == false, "C14: after Reset latency accounting treats the target as not synced")
 }
 
 // VerifC14_Remove: Remove makes the target unknown and announces a whole-target delete.
